@@ -44,6 +44,7 @@ type Obligation struct {
 
 // Ctx collects the obligations of one property run.
 type Ctx struct {
+	only  string
 	remap  string
 	P      *Program
 	Prop   string
@@ -64,13 +65,31 @@ func newCtx(p *Program, prop, tier string) *Ctx {
 // withRule runs f with every rule id it emits replaced by `rule` (and floors ignored): used to report a group of
 // rules that was written for one property under another property that depends on the same facts.
 func (c *Ctx) withRule(rule string, f func()) {
+	if c.only != "" {
+		return // inside withOnly: another property's shared rules are not the rule that was asked for
+	}
 	old := c.remap
 	c.remap = rule
 	defer func() { c.remap = old }()
 	f()
 }
 
+// withOnly runs f (the rules of another property) keeping only the obligations it files under rule `orig`, reported as
+// `rule` here.
+func (c *Ctx) withOnly(orig, rule string, f func()) {
+	if c.only != "" {
+		return
+	}
+	oldRemap := c.remap
+	c.only, c.remap = orig, rule
+	defer func() { c.only, c.remap = "", oldRemap }()
+	f()
+}
+
 func (c *Ctx) add(rule, key, pos string, st Status, detail string, trivial bool) *Obligation {
+	if c.only != "" && rule != c.only {
+		return &Obligation{}
+	}
 	if c.remap != "" {
 		rule = c.remap
 	}
